@@ -386,6 +386,7 @@ def check(run):
     for c, o, ch in res:
         run.count('err_' + str(o['err']))
     check_connect_shapes(run)
+    check_start_shapes(run)
 
 
 # wrongly shaped inputs: what connect() itself must refuse, and what it must accept and store
@@ -443,8 +444,120 @@ def check_connect_shapes(run, only=None):
                           clause='connect_shape:' + name, concrete=True)
 
 
+def _sig_expect(esig, shape):
+    """the documented meaning of check_signature(): same input names; None = a single input (not a
+    group of any size), an int = a group of exactly that size, (min, max) = a group within the bounds"""
+    if set(esig) != set(shape):
+        return False
+    for name, exp in esig.items():
+        val = shape[name]                   # None = single input, int = group size
+        if exp is None:
+            if val is not None:
+                return False
+        elif val is None:
+            return False
+        elif isinstance(exp, int):
+            if val != exp:
+                return False
+        else:
+            lo, hi = exp
+            if (lo is not None and val < lo) or (hi is not None and val > hi):
+                return False
+    return True
+
+
+def _start_shape_cases():
+    exps = [None, 0, 1, 2, (1, None), (None, 1), (0, 2)]
+    vals = [None, 0, 1, 2, 3]
+    out = []
+    for exp in exps:
+        for val in vals:
+            out.append((f"x_{exp}_{val}".replace(' ', ''), {'x': exp, 'y': None}, {'x': val, 'y': None}))
+    out.append(('missing', {'x': None, 'y': None}, {'x': None}))
+    out.append(('extra', {'x': None}, {'x': None, 'y': 1}))
+    out.append(('unnamed_group_as_single', {'_': None}, {'_': 1}))
+    out.append(('unnamed_group_1', {'_': 1}, {'_': 1}))
+    out.append(('unnamed_group_2_for_1', {'_': 1}, {'_': 2}))
+    # the library's own blocks
+    out.append(('lib_not_1', 'Not', {'_': 1}))
+    out.append(('lib_not_2', 'Not', {'_': 2}))
+    out.append(('lib_override_ok', 'Override', {'input': None, 'override': None}))
+    out.append(('lib_override_empty_group', 'Override', {'input': 0, 'override': None}))
+    out.append(('lib_override_group1', 'Override', {'input': None, 'override': 1}))
+    out.append(('lib_override_missing', 'Override', {'input': None}))
+    return out
+
+
+LIB_SIGS = {'Not': {'_': 1}, 'Override': {'input': None, 'override': None}}
+
+
+def check_start_shapes(run, only=None):
+    """'wrongly shaped inputs make ... the start fail': a block that declares its input signature
+    (check_signature() from start()) starts iff the connected shape matches it; otherwise the simulation
+    does not start. Exhaustive over expected None / n / (min, max) x actual single / group of 0..3."""
+    import asyncio
+    from . import vloop
+    for name, esig, shape in _start_shape_cases():
+        if only is not None and name != only:
+            continue
+        obs = dict(started=None, error=None, harness=None)
+        lib = esig if isinstance(esig, str) else None
+        want = _sig_expect(LIB_SIGS[lib] if lib else esig, shape)
+
+        async def main(loop, esig=esig, shape=shape, lib=lib, obs=obs):
+            edzed.reset_circuit()
+            circuit = edzed.get_circuit()
+            src = edzed.Input('src', initdef=False)
+
+            class Sig(edzed.CBlock):
+                def start(self):
+                    super().start()
+                    self.check_signature(esig)
+
+                def calc_output(self):
+                    return 0
+            blk = Sig('blk') if lib is None else getattr(edzed, lib)('blk')
+            args, kwargs = [], {}
+            for iname, val in shape.items():
+                v = src if val is None else [src] * val
+                if iname == '_':
+                    args = list(v)
+                else:
+                    kwargs[iname] = v
+            blk.connect(*args, **kwargs)
+            task = asyncio.create_task(circuit.run_forever())
+            try:
+                await circuit.wait_init()
+                obs['started'] = True
+            except Exception as err:             # noqa
+                obs['started'] = False
+                obs['error'] = type(circuit.error or err).__name__
+            try:
+                await circuit.shutdown()
+            except BaseException:                # noqa
+                pass
+        try:
+            vloop.run_virtual(main, wall_limit_s=10.0)
+        except BaseException as err:             # noqa
+            obs['harness'] = repr(err)[:200]
+        finally:
+            edzed.reset_circuit()
+        run.add_case(dict(start_shape=name), True)
+        run.count('start_shape')
+        ok = obs['harness'] is None and obs['started'] == want
+        run.add_obligation(ok)
+        if not ok:
+            run.violation('monitor', dict(case=dict(start_shape=name), observed=obs),
+                          f"block expecting inputs {LIB_SIGS[lib] if lib else esig} connected with the shape {shape} "
+                          f"(None = single input, n = group of n): started={obs['started']} "
+                          f"(expected {want}), error {obs['error']}; harness: {obs['harness']}",
+                          clause='start_shape:' + name, concrete=True)
+
+
 def replay(run, path):
     _, case = common.load_replay_case(path)
     if isinstance(case, dict) and 'connect_shape' in case:
         return common.directed_replay(run, path, lambda: check_connect_shapes(run, case['connect_shape']))
+    if isinstance(case, dict) and 'start_shape' in case:
+        return common.directed_replay(run, path, lambda: check_start_shapes(run, case['start_shape']))
     return common.std_replay(run, C15(), path)
